@@ -31,7 +31,7 @@ from aiohomekit.model.status_flags import StatusFlags
 from aiohomekit.zeroconf import HomeKitService
 
 UNIT = 8192
-FAIL_MODES = ["badsig", "err11", "err13", "err14", "err15", "err16", "err17", "err21", "err23", "err27", "close1", "close2", "http470", "exc"]
+FAIL_MODES = ["badsig", "err11", "err13", "err14", "err15", "err16", "err17", "err21", "err23", "err27", "close1", "close2", "reset1", "reset2", "reset1", "reset2", "http470", "exc"]
 AUTH_MODES = ["err12", "err22"]
 
 
@@ -197,6 +197,7 @@ async def _scenario(loop, sim, hosts, events, seed):
             groups = []  # (timestamp, set of targeted addresses) while one connector keeps retrying
             for ev in events:
                 hosts_before = list(conn.hosts)
+                conn_before = conn.transport if p.is_connected else None  # the healthy session at the start of this event
                 f = ev.split(":")
                 k = f[0]
                 mtok = model_token(ev)
@@ -323,6 +324,9 @@ async def _scenario(loop, sim, hosts, events, seed):
                 elif quiet and (op or new):
                     what = f"connection(s) {op} open" if op else f"connection attempt(s) {new}"
                     problems.append(("open-after-close", f"after {ev}: {what} although the pairing was {'shut down' if seen_shutdown else 'closed'} and nothing has asked for a connection since"))
+                if new and conn_before is not None and conn_before in net.open:
+                    # C10: retries end by success - a connector that keeps connecting although the session it set up is alive
+                    problems.append(("attempt-while-connected", f"after {ev}: connection attempt(s) {new} although the pairing was connected (connection {conn_before.index}) and that connection was never lost"))
                 if seen_shutdown and new:
                     problems.append(("attempt-after-shutdown", f"after {ev}: connection attempt(s) {new} after shutdown()"))
                 for i, o, t, t0 in fin:
@@ -377,11 +381,17 @@ async def _scenario(loop, sim, hosts, events, seed):
                         groups.append((t, set(hs)))
                 if cs != "live":
                     groups = []
-                elif len(groups) >= H + 1:
-                    seen_h = set().union(*(g[1] for g in groups[-(H + 1):]))
-                    missing = sorted(set(hidx(h) for h in conn.hosts) - seen_h)
-                    if missing:
-                        problems.append(("address-excluded", f"after {ev}: address(es) {missing} not tried in the last {H + 1} rounds of attempts ({[sorted(g[1]) for g in groups[-(H + 1):]]})"))
+                else:
+                    # the reference is what zeroconf advertises now, not the list the connection happens to hold: an address
+                    # that was only ADDED to the advertisement must be tried as well
+                    desc = getattr(p, "description", None)
+                    adv_idx = sorted(set(hidx(h) for h in (desc.addresses if desc is not None and desc.addresses else conn.hosts)))
+                    Ha = max(len(adv_idx), H)
+                    if len(groups) >= Ha + 1:
+                        seen_h = set().union(*(g[1] for g in groups[-(Ha + 1):]))
+                        missing = sorted(set(adv_idx) - seen_h)
+                        if missing:
+                            problems.append(("address-excluded", f"after {ev}: advertised address(es) {missing} not tried in the last {Ha + 1} rounds of attempts ({[sorted(g[1]) for g in groups[-(Ha + 1):]]})"))
                 if cs == "live" and last_attempt is not None and now_units(loop) - last_attempt > 90 * UNIT:
                     problems.append(("backoff-too-long", f"after {ev}: connector running but no attempt for {((now_units(loop) - last_attempt) / UNIT):.1f}s"))
             sim.attempts = raw_attempts
